@@ -6,6 +6,8 @@ import (
 	"fmt"
 	"sort"
 	"time"
+
+	"github.com/orbs-network/lean-helix-go/spec/types/go/protocol"
 )
 
 // NET shape: N real nodes, simulated transport, Byzantine adversary, fault injection.
@@ -44,7 +46,7 @@ func genNetConfig(ch *Chooser, prop, tier string, disabled map[string]bool) *Run
 	// microsecond per node so that no two timers ever expire at the same instant)
 	cfg.RealTimer = ch.Pick("real-timers", 6) == 5
 	if !cfg.FaultFree {
-		cfg.Director = []string{"", "", "split-commit", "split-prepare", "split-commit", "two-locks"}[ch.Pick("director", 6)]
+		cfg.Director = []string{"", "", "split-commit", "split-prepare", "split-commit", "two-locks", "late-proposal"}[ch.Pick("director", 7)]
 		cfg.DropPm = drawRate(ch, "r-drop")
 		cfg.DupPm = drawRate(ch, "r-dup")
 		cfg.DelayPm = drawRate(ch, "r-delay")
@@ -725,6 +727,10 @@ func (w *World) directorStep() {
 		w.twoLocksStep()
 		return
 	}
+	if w.cfg.Director == "late-proposal" {
+		w.lateProposalStep()
+		return
+	}
 	d := w.dir
 	if d == nil {
 		d = &director{h: uint64(1 + w.ch.Pick("dir-h", w.cfg.Heights)), budget: 400}
@@ -809,6 +815,105 @@ func (w *World) directorStep() {
 // block exists only in the hands of whoever saw the traffic, nobody is locked), everybody times out; in the next
 // view that gets a proposal the COMMITs reach only one lucky node, which decides, and the others time out again.
 // What remains is the classical state in which an old, never-decided certificate competes with the decided lock.
+// late-proposal: the view-0 leader of the chosen height is Byzantine. The proposals addressed to one correct node are
+// withheld (a slow link) until that node holds PREPAREs of the other members, of weight above f, for one of the
+// leader's proposals; then the leader sends that node the SAME signed header with ANOTHER block attached (only the
+// consumer's validation ties the attached block to the signed hash), and the link is healed.
+func (w *World) lateProposalStep() {
+	d := w.dir
+	if d == nil {
+		d = &director{h: uint64(1 + w.ch.Pick("dir-h", w.cfg.Heights)), budget: 300}
+		ld := w.keys.IdxOf(w.leader(d.h, 0))
+		if ld < 0 || ld >= len(w.nodes) || !w.isByz(ld) || w.disabled("byz.pp") {
+			w.cfg.Director = ""
+			return
+		}
+		var cands []int
+		for _, idx := range w.committeeIdx(d.h) {
+			if !w.isByz(idx) {
+				cands = append(cands, idx)
+			}
+		}
+		if len(cands) == 0 {
+			w.cfg.Director = ""
+			return
+		}
+		d.lucky = cands[w.ch.Pick("dir-lucky", len(cands))]
+		d.view1 = int64(ld)
+		w.dir = d
+		w.hold = func(f *Flight) bool {
+			if d.state != 0 || f.to != d.lucky {
+				return false
+			}
+			m := Decode(f.raw)
+			return m != nil && (m.Kind == KPP || m.Kind == KNV) && m.Height() == d.h
+		}
+		w.ev("director late-proposal h%d slow link to n%d, leader n%d", d.h, d.lucky, ld)
+		w.probe("director-late-proposal-active")
+	}
+	if d.state != 0 {
+		return
+	}
+	x := w.nodes[d.lucky]
+	if x.alive && x.height() < d.h {
+		return // not there yet
+	}
+	d.budget--
+	if d.budget <= 0 || !x.alive || x.height() > d.h || x.view() != 0 {
+		d.state = 1
+		w.hold = nil
+		return
+	}
+	w.probe("director-late-proposal-waiting")
+	if d.wait == 0 {
+		// the leader proposes (to a tape-chosen subset of the correct nodes; the slow node's copy is withheld)
+		d.wait = 1
+		w.advPP(int(d.view1), d.h, 0, "byz.pp")
+		return
+	}
+	// PREPAREs of view 0 stored by the node, per hash
+	_, f, _ := thresholds(w.Committee(d.h))
+	by := map[string]map[string]bool{}
+	for _, st := range x.obs.stores {
+		if st.ok && st.kind == "P" && st.h == d.h && st.v == 0 && st.epoch == x.epoch {
+			if by[string(st.hash)] == nil {
+				by[string(st.hash)] = map[string]bool{}
+			}
+			by[string(st.hash)][string(st.sender)] = true
+		}
+	}
+	ld := int(d.view1)
+	sg := w.signer(ld)
+	for _, m := range w.byzProposals {
+		if m.Kind != KPP || m.Ref.H != d.h || m.Ref.V != 0 || !m.Sender.Id.Equal(sg.Id()) {
+			continue
+		}
+		if ids := by[string(m.Ref.Hash)]; ids != nil && w.weightOf(d.h, ids) > f {
+			other := w.freshBlock(d.h, ld, w.ch.Pick("pp-poison", 4) == 3)
+			raw := SignedRefMsg(sg, KPP, protocol.LEAN_HELIX_PREPREPARE, w.instance, d.h, 0, m.Ref.Hash, nil, other)
+			d.state = 1
+			w.hold = nil
+			// the withheld proposals are lost on the slow link; the late one arrives
+			keep := w.flights[:0]
+			for _, fl := range w.flights {
+				if fl.to == d.lucky {
+					if mm := Decode(fl.raw); mm != nil && (mm.Kind == KPP || mm.Kind == KNV) && mm.Height() == d.h {
+						w.stats.Fault("drop")
+						continue
+					}
+				}
+				keep = append(keep, fl)
+			}
+			w.flights = keep
+			w.use("byz.pp-known-header-other-block")
+			w.probe("director-late-proposal-reached")
+			w.inject(ld, raw, "byz.pp", []int{d.lucky})
+			w.advPlan = append(w.advPlan, "byz.follow", "byz.follow", "byz.follow", "byz.follow")
+			return
+		}
+	}
+}
+
 func (w *World) twoLocksStep() {
 	d := w.dir
 	if d == nil {
